@@ -239,7 +239,7 @@ func shortKey(k string) string {
 func c17LineCounter(p *Prog, r *Report) {
 	sliceRelativeRule(p, r, "C17.R6", []string{"calcHermesBatch.lineCounter"}, 1)
 
-	r.Rule("C17.R7", "counting decision of the line counter, per path of the scan-loop body: with I the search result and K ≥ 0 the bytes carried from the previous chunk, a path that raises the counter must allow K+I ≥ 1, a path on which a line break was found (I ≠ −1) and the counter is unchanged must exclude K+I ≥ 2; the carried count is reset when a break is found and positive when none is; at end of input the counter is raised exactly when bytes are carried", 5)
+	r.Rule("C17.R7", "counting decision of the line counter, per path of the scan-loop body: with I the search result and K ≥ 0 the bytes carried from the previous chunk, a path that raises the counter must allow K+I ≥ 1, a path on which a line break was found (I ≠ −1) and the counter is unchanged must exclude K+I ≥ 2; the carried count is reset when a break is found and positive when none is; at end of input the counter is raised exactly when bytes are carried; the exact decision per path (one byte without CR counts, a lone CR does not), the search start advances to just after the break, the scan continues while a break was found and bytes remain, the CR flag comes from the byte before the break / the last byte of the chunk; nothing is carried into the first chunk and every chunk is searched from its first byte", 23)
 	key := "calcHermesBatch.lineCounter"
 	fi := p.Funcs[key]
 	x := walked(p, key)
@@ -276,6 +276,20 @@ func c17LineCounter(p *Prog, r *Report) {
 		r.Ob("counter", p.Pos(fi.Decl.Pos()), false, "the returned line count is not a local variable")
 		return
 	}
+	// the search start: lower bound of the sliced buffer handed to the search; its upper bound
+	var startObj, hiObj, bufObj types.Object
+	ast.Inspect(L.Stmt, func(n ast.Node) bool {
+		c, ok := n.(*ast.CallExpr)
+		if !ok {
+			return true
+		}
+		if f := callee(info, c); f != nil && f.FullName() == "bytes.Index" && len(c.Args) == 2 {
+			if se, ok := c.Args[0].(*ast.SliceExpr); ok {
+				startObj, hiObj, bufObj = useObj(info, se.Low), useObj(info, se.High), useObj(info, se.X)
+			}
+		}
+		return true
+	})
 	_, ends := forkBody(p, fi, L.Stmt)
 	// identify I (search result atom) and K (carry: the int local, declared outside the loop, that is added to I)
 	var carry types.Object
@@ -342,11 +356,28 @@ func c17LineCounter(p *Prog, r *Report) {
 			continue // infeasible path
 		case d.Equal(PInt(1)):
 			ok := found && !satisfiable(g, cmpCond(K.Add(I), token.LEQ)) == true
+			if B := crFlagOf(st.guards); B != nil {
+				// exact decision: counted only if (K+I ≥ 1 ∧ no CR before the break) ∨ (K+I ≥ 2 ∧ CR before the break)
+				notSpec := &Cond{Kind: "and", Sub: []*Cond{
+					{Kind: "or", Sub: []*Cond{cmpCond(K.Add(I).Sub(PInt(1)), token.LSS), {Kind: "not", Sub: []*Cond{B}}}},
+					{Kind: "or", Sub: []*Cond{cmpCond(K.Add(I).Sub(PInt(2)), token.LSS), B}},
+				}}
+				exact := !satisfiable(g, notSpec)
+				r.Ob("count-exact:"+label, p.Pos(L.Stmt.Pos()), exact, fmt.Sprintf("counted path implies (K+I ≥ 1 and the byte before the break is no CR) or (K+I ≥ 2 and it is a CR): %v — a line holding only a carriage return must not be counted, a one-byte line must", exact))
+			}
 			// a counted path must exclude the empty line K+I ≤ 0
 			r.Ob("count:"+label, p.Pos(L.Stmt.Pos()), ok, fmt.Sprintf("[%s] counter +1: only after a line break was found (%v) and never for an empty line K+I ≤ 0 (excluded: %v)", guardKeys(st.guards), found, !satisfiable(g, cmpCond(K.Add(I), token.LEQ))))
 			nFound++
 		case d.IsZero() && found:
 			ok := !satisfiable(g, cmpCond(K.Add(I).Sub(PInt(2)), token.GEQ))
+			if B := crFlagOf(st.guards); B != nil {
+				spec := &Cond{Kind: "or", Sub: []*Cond{
+					{Kind: "and", Sub: []*Cond{cmpCond(K.Add(I).Sub(PInt(1)), token.GEQ), B}},
+					{Kind: "and", Sub: []*Cond{cmpCond(K.Add(I).Sub(PInt(2)), token.GEQ), {Kind: "not", Sub: []*Cond{B}}}},
+				}}
+				exact := !satisfiable(g, spec)
+				r.Ob("skip-exact:"+label, p.Pos(L.Stmt.Pos()), exact, fmt.Sprintf("uncounted path with a found break excludes (K+I ≥ 1 without CR) and (K+I ≥ 2 with CR): %v — otherwise a one-character batch line is not counted", exact))
+			}
 			r.Ob("skip:"+label, p.Pos(L.Stmt.Pos()), ok, fmt.Sprintf("[%s] line break found, counter unchanged: a line with two or more bytes (K+I ≥ 2) must be impossible on this path: %v — otherwise a batch line whose break falls on a particular position of a read chunk is not counted and the last batch lines get no range", guardKeys(st.guards), ok))
 			nFound++
 		case d.IsZero() && none:
@@ -359,6 +390,12 @@ func c17LineCounter(p *Prog, r *Report) {
 			r.Ob("skip:"+label, p.Pos(L.Stmt.Pos()), ok, fmt.Sprintf("[%s] counter unchanged on a path that does not test the search result: K+I ≥ 2 with a found break must be impossible: %v", guardKeys(st.guards), ok))
 		default:
 			r.Ob("count:"+label, p.Pos(L.Stmt.Pos()), false, fmt.Sprintf("[%s] counter changes by %s in one iteration", guardKeys(st.guards), d))
+		}
+		// the next search starts right after the found break
+		if found && satisfiable(g) && startObj != nil {
+			sv, has := st.vars[startObj]
+			want := pVar(startObj.Name()).Add(I).Add(PInt(1))
+			r.Ob("advance:"+label, p.Pos(L.Stmt.Pos()), has && sv.Equal(want), fmt.Sprintf("after a found break the search start becomes %s (must be start + I + 1: one further and a byte is skipped, one less and the same break is found again)", polyOr(sv)))
 		}
 		// carry reset when a break was found
 		if found && satisfiable(g) {
@@ -386,13 +423,167 @@ func c17LineCounter(p *Prog, r *Report) {
 					}
 				}
 			}
-			okEOF = hasCarry && n == 2
+			isEOF := false
+			for _, g := range flattenGuards(e.Guards) {
+				if g.Kind == "cmp" && g.Op == token.EQL && strings.Contains(g.Key(), "io.EOF") {
+					isEOF = true
+				}
+			}
+			okEOF = hasCarry && n == 2 && isEOF
 			r.Ob("eof", p.Pos(e.Pos), okEOF, fmt.Sprintf("at end of input the counter is raised under [%s] (must be: end of input and carried bytes > 0, nothing else)", guardKeys(e.Guards)))
 		}
 	}
 	if !okEOF {
 		r.Expect("eof", false, "increment of the counter for a last line without line break")
 	}
+	c17ScanShape(p, r, fi, L, search.Local, startObj, hiObj, bufObj, carry)
+}
+
+// crFlagOf returns the opaque condition (the carriage-return flag) that occurs inside a disjunction of the path condition.
+func crFlagOf(gs []*Cond) *Cond {
+	var found *Cond
+	var walk func(c *Cond, inOr bool)
+	walk = func(c *Cond, inOr bool) {
+		switch c.Kind {
+		case "and", "or", "not":
+			for _, s := range c.Sub {
+				walk(s, inOr || c.Kind == "or")
+			}
+		case "cmp", "const":
+		default:
+			if inOr && found == nil {
+				found = c
+			}
+		}
+	}
+	for _, g := range gs {
+		walk(g, false)
+	}
+	return found
+}
+
+// c17ScanShape: the parts of the scan loop the path evaluation treats as opaque.
+func c17ScanShape(p *Prog, r *Report, fi *FuncInfo, L *LoopCtx, idxObj, startObj, hiObj, bufObj, carry types.Object) {
+	info := fi.Pkg.TypesInfo
+	loop, _ := L.Stmt.(*ast.ForStmt)
+	if loop == nil || startObj == nil || hiObj == nil || bufObj == nil {
+		r.Ob("scan:shape", p.Pos(L.Stmt.Pos()), false, "scan loop / searched slice buf[start:n] not recognised")
+		return
+	}
+	// (a) n is the number of bytes just read into the same buffer, and the scan runs exactly when n > 0
+	okRead := false
+	for _, d := range defsOf(info, fi.Decl.Body, hiObj) {
+		if c, ok := stripParens(d.Rhs).(*ast.CallExpr); ok && d.Idx == 0 && len(c.Args) == 1 && useObj(info, c.Args[0]) == bufObj {
+			if se, ok := c.Fun.(*ast.SelectorExpr); ok && se.Sel.Name == "Read" {
+				okRead = true
+			}
+		}
+	}
+	conds, _ := astPathConds(info, fi.Decl.Body, loop)
+	okGuard := len(conds) == 1 && !conds[0].Neg
+	if okGuard {
+		s := normExpr(info, conds[0].E, nil)
+		okGuard = s == "("+hiObj.Name()+" > 0)" || s == "(0 < "+hiObj.Name()+")" || s == "("+hiObj.Name()+" >= 1)" || s == "("+hiObj.Name()+" != 0)"
+	}
+	r.Ob("scan:chunk", p.Pos(loop.Pos()), okRead && okGuard, fmt.Sprintf("the searched slice ends at the number of bytes just read into the buffer: %v; the scan runs under [%s] (must be exactly 'bytes were read')", okRead, joinConds(conds)))
+	// (a2) initial values: nothing is carried into the first chunk, every chunk is searched from its first byte
+	initOK := func(obj types.Object) (bool, string) {
+		n := 0
+		ok := true
+		for _, d := range defsOf(info, fi.Decl.Body, obj) {
+			if d.Stmt.Pos() >= loop.Pos() && d.Stmt.End() <= loop.End() {
+				continue
+			}
+			n++
+			if tv := info.Types[d.Rhs]; tv.Value == nil || tv.Value.String() != "0" {
+				ok = false
+			}
+		}
+		return ok && n >= 1, fmt.Sprintf("%d definition(s) outside the scan loop", n)
+	}
+	okC, dC := initOK(carry)
+	okS, dS := initOK(startObj)
+	r.Ob("scan:initial", p.Pos(loop.Pos()), okC && okS, fmt.Sprintf("carried byte count starts at 0 (%v, %s); the search of a chunk starts at its first byte (%v, %s)", okC, dC, okS, dS))
+	// (b) continuation: found ∧ start < n
+	okCont := false
+	if as, ok := loop.Post.(*ast.AssignStmt); ok && len(as.Lhs) == 1 && len(as.Rhs) == 1 && useObj(info, as.Lhs[0]) == useObj(info, loop.Cond) && useObj(info, loop.Cond) != nil {
+		lits := splitCond(as.Rhs[0], false, nil)
+		foundT, moreT := false, false
+		for _, l := range lits {
+			s := normExpr(info, l.E, nil)
+			if !l.Neg && (s == "("+idxObj.Name()+" != -1)" || s == "("+idxObj.Name()+" >= 0)" || s == "(-1 != "+idxObj.Name()+")") {
+				foundT = true
+			}
+			if !l.Neg && (s == "("+startObj.Name()+" < "+hiObj.Name()+")" || s == "("+hiObj.Name()+" > "+startObj.Name()+")") {
+				moreT = true
+			}
+		}
+		okCont = foundT && moreT && len(lits) == 2
+	}
+	r.Ob("scan:continue", p.Pos(loop.Pos()), okCont, "the scan of a chunk goes on exactly while a break was found and bytes remain (start < bytes read): otherwise the remaining lines of the chunk are not counted")
+	// (c) the carriage-return flag: in-chunk from the byte before the break (only when the break is not the first byte), at the end of a chunk from its last byte
+	var flagObj types.Object
+	nIn, nEnd := 0, 0
+	okIn, okEnd := true, true
+	ast.Inspect(loop.Body, func(n ast.Node) bool {
+		as, ok := n.(*ast.AssignStmt)
+		if !ok || len(as.Lhs) != 1 || len(as.Rhs) != 1 {
+			return true
+		}
+		be, ok := stripParens(as.Rhs[0]).(*ast.BinaryExpr)
+		if !ok || be.Op != token.NEQ {
+			return true
+		}
+		ix, ok := stripParens(be.X).(*ast.IndexExpr)
+		if !ok || useObj(info, ix.X) != bufObj {
+			return true
+		}
+		if tv := info.Types[be.Y]; tv.Value == nil || tv.Value.String() != "13" {
+			return true
+		}
+		flagObj = useObj(info, as.Lhs[0])
+		a := affOf(info, ix.Index)
+		cs, _ := astPathConds(info, loop.Body, as)
+		if a.ok && a.co[idxObj] == 1 {
+			nIn++
+			// start + index − 1, under found ∧ index > 0
+			if a.co[startObj] != 1 || a.c != -1 || len(a.co) != 2 {
+				okIn = false
+			}
+			pos := false
+			for _, c := range cs {
+				s := normExpr(info, c.E, nil)
+				if !c.Neg && (s == "("+idxObj.Name()+" > 0)" || s == "("+idxObj.Name()+" >= 1)" || s == "(0 < "+idxObj.Name()+")") {
+					pos = true
+				}
+			}
+			if !pos {
+				okIn = false
+			}
+		} else if a.ok && a.co[hiObj] == 1 {
+			nEnd++
+			if a.c != -1 || len(a.co) != 1 {
+				okEnd = false
+			}
+			// on the no-break side
+			none := false
+			for _, c := range cs {
+				s := normExpr(info, c.E, nil)
+				if (c.Neg && (s == "("+idxObj.Name()+" != -1)" || s == "("+idxObj.Name()+" >= 0)")) || (!c.Neg && (s == "("+idxObj.Name()+" == -1)" || s == "("+idxObj.Name()+" < 0)")) {
+					none = true
+				}
+			}
+			if !none {
+				okEnd = false
+			}
+		} else {
+			okIn = false
+		}
+		return true
+	})
+	r.Ob("scan:cr-in-chunk", p.Pos(loop.Pos()), nIn == 1 && okIn, fmt.Sprintf("%d store(s) of the carriage-return flag from the byte directly before a found break, only when the break is not the first byte of the search range: %v", nIn, okIn))
+	r.Ob("scan:cr-chunk-end", p.Pos(loop.Pos()), nEnd == 1 && okEnd, fmt.Sprintf("%d store(s) of the carriage-return flag from the last byte read when no break is left in the chunk: %v (a CR LF pair split over two chunks)", nEnd, okEnd))
+	_ = flagObj
 }
 
 // c17Output: what reaches the caller.  The ranges are collected in one string
@@ -402,7 +593,7 @@ func c17LineCounter(p *Prog, r *Report) {
 // answer prints the line count when there are fewer lines than nodes and the
 // node count otherwise.
 func c17Output(p *Prog, r *Report) {
-	r.Rule("C17.R8", "what is printed: every formatted range is appended to one string accumulator (declared empty) and that accumulator is printed after the loops; the -size answer prints the number of lines on the arm 'fewer lines than nodes' and the number of nodes on the other arm, through the same decision as the -list block", 6)
+	r.Rule("C17.R8", "what is printed: every formatted range is appended to one string accumulator (declared empty) and that accumulator is printed after the loops; the -size answer prints the number of lines on the arm 'fewer lines than nodes' and the number of nodes on the other arm, through the same decision as the -list block; every range but the last of a loop is followed by a blank", 7)
 	fi := p.Funcs["calcHermesBatch.main"]
 	if fi == nil {
 		r.Ob("main", "-", false, "calcHermesBatch.main not found")
